@@ -82,10 +82,13 @@ Definition restore_scan_dir (scope : str) (acc : list trashed_file) (dir_vol : s
                           end)) acc.
 
 (* trash_directories.py (fixed: $topdir/.Trash/$uid only when it passes the rules) *)
-Definition restore_volume (uid : N) (scope : str) (acc : list trashed_file) (volume : str) : prog (list trashed_file) :=
+(* the shared directory $topdir/.Trash/$uid is read only when the rules accept it *)
+Definition restore_top1 (uid : N) (scope : str) (acc : list trashed_file) (volume : str) : prog (list trashed_file) :=
   let d1 := volume_trash_dir1 volume uid in
   r <- valid_to_be_read d1 ;;
-  acc1 <- (match r with TopValid => restore_scan_dir scope acc (d1, volume) | _ => Ret acc end) ;;
+  match r with TopValid => restore_scan_dir scope acc (d1, volume) | _ => Ret acc end.
+Definition restore_volume (uid : N) (scope : str) (acc : list trashed_file) (volume : str) : prog (list trashed_file) :=
+  acc1 <- restore_top1 uid scope acc volume ;;
   restore_scan_dir scope acc1 (volume_trash_dir2 volume uid, volume).
 
 Definition restore_mounts (l : list str) (uid : N) (scope : str) (acc : list trashed_file) : prog (list trashed_file) :=
